@@ -213,6 +213,7 @@ struct StModel {
   }
 
   // ----- projection -----
+  unsigned nobs_rot_ = 0;
   bj::object observe() {
     const ST& c = st;
     bj::object o;
@@ -222,6 +223,50 @@ struct StModel {
     std::size_t n1 = 0;
     for (auto sh : c.complex_simplex_range()) { K[vertices_of(sh)] = static_cast<double>(c.filtration(sh)); ++n1; }
     if (n1 != K.size()) failed.push_back("complex_simplex_range lists a simplex twice");
+    int D = -1;
+    for (auto& p : K) D = std::max<int>(D, static_cast<int>(p.first.size()) - 1);
+    // The three dimension-sensitive queries (the counts by dimension, dimension(), operator== against a rebuilt tree) are
+    // asked in a rotating order: the stored dimension may be a stale upper bound after removals until one of them
+    // recomputes it, and each must be right when it is the first to be asked.
+    auto q_nbd = [&]() {
+      {
+        bj::array a;
+        for (auto x : c.num_simplices_by_dimension()) a.push_back(static_cast<std::int64_t>(x));
+        o["nbd"] = a;
+      }
+    };
+    auto q_dim = [&]() {
+      {
+        int ub = c.upper_bound_dimension();
+        int dim = c.dimension();
+        o["dim"] = dim;
+        if (ub < D) failed.push_back("upper_bound_dimension below the dimension");
+        if (c.is_empty() != K.empty()) failed.push_back("is_empty wrong");
+      }
+    };
+    auto q_eq = [&]() {
+      // equality with a tree rebuilt from scratch from the observed complex
+      {
+        ST fresh;
+        std::vector<std::pair<std::vector<int>, double>> byd(K.begin(), K.end());
+        std::stable_sort(byd.begin(), byd.end(), [](auto& a, auto& b) { return a.first.size() < b.first.size(); });
+        for (auto& p : byd) fresh.insert_simplex(lab(p.first), static_cast<FV>(p.second));
+        if (!(fresh == c) || (fresh != c)) failed.push_back("operator== false against a tree rebuilt from the same complex");
+        if (!(c == fresh) || (c != fresh)) failed.push_back("operator== (object on the left) false against a tree rebuilt from the same complex");
+        if (!K.empty()) {
+          ST other;
+          bool first = true;
+          for (auto& p : byd) { other.insert_simplex(lab(p.first), static_cast<FV>(Options::store_filtration && first ? (std::isinf(p.second) ? 0. : p.second + 1) : p.second)); first = false; }   // inf + 1 == inf
+          if (!Options::store_filtration) other.insert_simplex(lab({g_nv + 1}), FV(0));
+          if (other == c) failed.push_back("operator== true against a different tree");
+        }
+      }
+    };
+    switch (nobs_rot_++ % 3) {
+      case 0: q_eq(); q_nbd(); q_dim(); break;
+      case 1: q_nbd(); q_dim(); q_eq(); break;
+      default: q_dim(); q_eq(); q_nbd(); break;
+    }
     // (2) find on every non-empty subset of the universe
     std::map<std::vector<int>, double> K2;
     for (unsigned m = 1; m < (1u << g_nv); ++m) {
@@ -240,8 +285,6 @@ struct StModel {
     for (auto& p : K) kset.push_back(bj::object{{"s", jarr(p.first)}, {"f", fv(p.second)}});
     o["k_set"] = kset;
     // (3) skeleton ranges
-    int D = -1;
-    for (auto& p : K) D = std::max<int>(D, static_cast<int>(p.first.size()) - 1);
     bj::array skel;
     for (int d = 0; d <= g_maxdim; ++d) {
       std::vector<std::vector<int>> t;
@@ -260,18 +303,6 @@ struct StModel {
       o["nv"] = static_cast<std::int64_t>(c.num_vertices());
     }
     o["ns"] = static_cast<std::int64_t>(c.num_simplices());
-    {
-      bj::array a;
-      for (auto x : c.num_simplices_by_dimension()) a.push_back(static_cast<std::int64_t>(x));
-      o["nbd"] = a;
-    }
-    {
-      int ub = c.upper_bound_dimension();
-      int dim = c.dimension();
-      o["dim"] = dim;
-      if (ub < D) failed.push_back("upper_bound_dimension below the dimension");
-      if (c.is_empty() != K.empty()) failed.push_back("is_empty wrong");
-    }
     // per-simplex queries
     bj::array qset;
     for (auto& p : K) {
@@ -377,21 +408,6 @@ struct StModel {
       for (auto sh : st.filtration_simplex_range()) fl2.push_back(jarr(vertices_of(sh)));
       o["filt_noinf"] = fl2;
       st.clear_filtration();
-    }
-    // equality with a tree rebuilt from scratch from the observed complex
-    {
-      ST fresh;
-      std::vector<std::pair<std::vector<int>, double>> byd(K.begin(), K.end());
-      std::stable_sort(byd.begin(), byd.end(), [](auto& a, auto& b) { return a.first.size() < b.first.size(); });
-      for (auto& p : byd) fresh.insert_simplex(lab(p.first), static_cast<FV>(p.second));
-      if (!(fresh == c) || (fresh != c)) failed.push_back("operator== false against a tree rebuilt from the same complex");
-      if (!K.empty()) {
-        ST other;
-        bool first = true;
-        for (auto& p : byd) { other.insert_simplex(lab(p.first), static_cast<FV>(Options::store_filtration && first ? (std::isinf(p.second) ? 0. : p.second + 1) : p.second)); first = false; }   // inf + 1 == inf
-        if (!Options::store_filtration) other.insert_simplex(lab({g_nv + 1}), FV(0));
-        if (other == c) failed.push_back("operator== true against a different tree");
-      }
     }
     bj::array fa;
     for (auto& s : failed) fa.emplace_back(s);
